@@ -1457,7 +1457,8 @@ class BaseLoss(object):
         if self._targetState is None:
             index_list = range(self._num_state)
         else:
-            index_list = [self._ode.get_state_index(i) for i in self._targetState]
+            # get_state_index returns a list of indices, also for a single name
+            index_list = list(self._ode.get_state_index(self._targetState))
 
         return index_list
 
